@@ -7,6 +7,7 @@ use std::sync::{Arc, Condvar, Mutex};
 use std::sync::Arc;
 #[cfg(feature = "verif")]
 use crate::verif_sync::{Condvar, Mutex};
+use std::time::Duration;
 
 use crate::responder::ConfirmationStatus;
 use crate::{errors, rpc_errors};
@@ -16,6 +17,9 @@ use bitcoincore_rpc::{
     jsonrpc::error::Error::Rpc as RpcError, jsonrpc::error::Error::Transport as TransportError,
     Client as BitcoindClient, Error::JsonRpc as JsonRpcError, RpcApi,
 };
+
+/// How often the [Carrier] checks by itself whether bitcoind is back while hanging until it is reachable.
+const REACHABILITY_CHECK_INTERVAL: Duration = Duration::from_secs(10);
 
 /// Component in charge of the interaction with Bitcoind by sending / querying transactions via RPC.
 #[derive(Debug)]
@@ -65,11 +69,28 @@ impl Carrier {
     }
 
     /// Hangs the process until bitcoind is reachable. If bitcoind is already reachable it just passes trough.
+    ///
+    /// The one flagging bitcoind as reachable again is normally the chain monitor. However, the chain monitor may be the very thread
+    /// that is hanging here (if the connection was lost while a block was being processed), or it may be waiting for a lock held by
+    /// the thread hanging here. Hence bitcoind is also checked from here every [REACHABILITY_CHECK_INTERVAL].
     fn hang_until_bitcoind_reachable(&self) {
         let (lock, notifier) = &*self.bitcoind_reachable;
         let mut reachable = lock.lock().unwrap();
         while !*reachable {
-            reachable = notifier.wait(reachable).unwrap();
+            reachable = notifier
+                .wait_timeout(reachable, REACHABILITY_CHECK_INTERVAL)
+                .unwrap()
+                .0;
+            if !*reachable {
+                drop(reachable);
+                let is_back = self.bitcoin_cli.get_block_count().is_ok();
+                reachable = lock.lock().unwrap();
+                if is_back {
+                    log::info!("Connection with bitcoind has been restored");
+                    *reachable = true;
+                    notifier.notify_all();
+                }
+            }
         }
     }
 
